@@ -150,3 +150,41 @@ func vpC05_O4() {
 	other := &CLSignature{A: sig.A, E: sig.E, V: sig.V, KeyshareP: new(big.Int).Exp(pk.R[0], y2, pk.N)}
 	vpAssert("a signature does not verify with another keyshare contribution", !other.Verify(pk, ms))
 }
+
+func init() {
+	vpHarnesses["vpC05_O5"] = vpC05_O5
+}
+
+// C05-O5: what is signed. The representation of a message block that signing and
+// verification share equals its specification for entries of any size around the
+// boundary: R_i^(m_i) for |m_i| of at most Lm bits, R_i^(SHA-256(|m_i|)) for longer
+// ones ("oversized messages hashed") - in particular for m_i = 2^Lm, the smallest
+// oversized message. The signature the issuer makes over such a block satisfies the
+// signature equation with exactly this representation.
+func vpC05_O5() {
+	pk, sk := vpKeys(0, 3, 1024, false)
+	n := 1 + vpChoose("nmsgs", 2)
+	ms := make([]*big.Int, n)
+	spec := big.NewInt(1)
+	for i := range ms {
+		ms[i] = vpBigBits(fmt.Sprintf("m%d", i), 300)
+		if vpBool(fmt.Sprintf("neg%d", i)) {
+			ms[i] = new(big.Int).Neg(ms[i])
+		}
+		exp := ms[i]
+		if exp.BitLen() > int(pk.Params.Lm) {
+			exp = common.IntHashSha256(exp.Bytes())
+		}
+		spec.Mul(spec, new(big.Int).Exp(pk.R[i], exp, pk.N)).Mod(spec, pk.N)
+	}
+	rep, err := RepresentToPublicKey(pk, ms)
+	vpAssert("the representation of a message block is computed", err == nil)
+	vpAssert("the representation hashes exactly the entries longer than Lm bits", vpSameGroupElem(new(big.Int).Mod(rep, pk.N), spec))
+	sig, err := SignMessageBlock(sk, pk, ms)
+	vpAssume(err == nil)
+	// Z = A^e * S^v * rep (mod N)
+	q := new(big.Int).Exp(sig.A, sig.E, pk.N)
+	q.Mul(q, new(big.Int).Exp(pk.S, sig.V, pk.N)).Mod(q, pk.N)
+	q.Mul(q, spec).Mod(q, pk.N)
+	vpAssert("the issued signature satisfies the equation over the specified representation", vpSameGroupElem(q, pk.Z))
+}
